@@ -50,7 +50,7 @@ SPEC = {
         # concurrent part (schedule dependent; far below what is normally observed)
         "race_detector_runs": (8, 12), "conc_runs": (12, 150), "interleaving_signatures": (50, 500),
         "conc_overlapping_bursts": (1000, 10000), "conc_removals_reported": (300, 3000), "conc_sync_windows": (5, 50),
-        "conc_adds_in_sync_window": (100, 1000), "conc_point_hits": (10000, 100000), "conc_offers_checked": (200, 2000),
+        "conc_adds_in_sync_window": (100, 1000), "conc_offers_checked": (200, 2000),
         "conc_blocks_in_period_2": (3, 30), "conc_blocks_in_period_3": (3, 30), "conc_epoch_changes": (4, 40),
         "conc_add_ok": (1000, 10000), "conc_add_dup": (1000, 10000), "conc_get_t": (1000, 10000), "conc_get_f": (1000, 10000),
     }),
